@@ -290,6 +290,9 @@ where
                 it.fold(Vec::new(), |mut acc: Vec<I::Item>, x| {
                     let _s = ledger::Suspend::new();
                     acc.push(x);
+                    // the fold closure is user code: it may panic part-way (the items it already
+                    // received are owned by `acc` and destroyed by the unwinding, exactly once)
+                    ledger::maybe_panic('g', 0, 0);
                     acc
                 })
             });
@@ -538,18 +541,29 @@ pub fn exec_map<const N: usize>(cage: &mut Cage<Map<Key, Val, N>>, op: &Value, c
         "retain" => {
             let keep: Vec<Cls> = op["keep"].as_array().unwrap().iter().map(|x| x.as_u64().unwrap() as Cls).collect();
             let m = &mut cage.m;
-            match call(ctx, || {
+            let span = ctx.span;
+            let outside = Cell::new(0usize);
+            let r = call(ctx, || {
                 m.retain(|k, v| {
                     let _s = ledger::Suspend::new();
                     k.check("retain predicate key");
                     v.check("retain predicate value");
+                    // C06: the references handed to the predicate point inside the container
+                    let (ka, va) = (k as *const Key as usize, v as *const Val as usize);
+                    if ka < span.0 || ka + std::mem::size_of::<Key>() > span.1 || va < span.0 || va + std::mem::size_of::<Val>() > span.1 {
+                        outside.set(outside.get() + 1);
+                    }
                     ledger::maybe_panic('p', k.serial, v.serial);
                     if w != NO_WRITE {
                         v.content = w as u8;
                     }
                     keep.contains(&k.class())
                 })
-            }) {
+            });
+            if outside.get() > 0 {
+                ctx.note("C06", format!("retain handed its predicate {} reference(s) that point outside the container value", outside.get()));
+            }
+            match r {
                 None => json!(["panic"]),
                 Some(()) => json!(["unit"]),
             }
@@ -600,7 +614,7 @@ pub fn exec_map<const N: usize>(cage: &mut Cage<Map<Key, Val, N>>, op: &Value, c
             let nitems = items.len();
             let pulled = Cell::new(0usize);
             let built = if name == "from_iter" {
-                let src = Source { items: items.into_iter(), pulled: &pulled, done: Cell::new(0) };
+                let src = Source { items: items.into_iter(), pulled: &pulled, done: Cell::new(0), hint: hint_of(op) };
                 call(ctx, || src.collect::<Map<Key, Val, N>>())
             } else {
                 assert_eq!(nitems, N);
@@ -733,6 +747,15 @@ pub struct Source<'a, T> {
     pub items: std::vec::IntoIter<T>,
     pub pulled: &'a Cell<usize>,
     pub done: Cell<usize>,
+    /// what size_hint claims: 0 = nothing (0, None), 1 = the truth, 2 = "at most zero" (a lie safe code may tell)
+    pub hint: u8,
+}
+pub fn hint_of(op: &Value) -> u8 {
+    match op["hint"].as_str().unwrap_or("none") {
+        "exact" => 1,
+        "zero" => 2,
+        _ => 0,
+    }
 }
 impl<T> Iterator for Source<'_, T> {
     type Item = T;
@@ -746,6 +769,13 @@ impl<T> Iterator for Source<'_, T> {
             self.done.set(self.done.get() + 1);
         }
         x
+    }
+    fn size_hint(&self) -> (usize, Option<usize>) {
+        match self.hint {
+            1 => (self.items.len(), Some(self.items.len())),
+            2 => (0, Some(0)),
+            _ => (0, None),
+        }
     }
 }
 
@@ -767,7 +797,7 @@ fn exec_cursor<const N: usize>(cage: &mut Cage<Map<Key, Val, N>>, op: &Value, ct
     let w = i(op, "w");
     let end = s(op, "end");
     macro_rules! borrowing {
-        (@clone $ito:ident, $ret:ident, true) => {{ if let Some(mut $ito) = $ito {
+        (@clone $ito:ident, $ret:ident, $meth:ident) => {{ if let Some(mut $ito) = $ito {
             let cl = $ito.clone();
             let viaclone: Vec<Value> = {
                 let mut c = cl;
@@ -792,18 +822,47 @@ fn exec_cursor<const N: usize>(cage: &mut Cage<Map<Key, Val, N>>, op: &Value, ct
             if viaclone != orig {
                 ctx.note("C09", format!("a cloned iterator continues differently: clone {viaclone:?} original {orig:?}"));
             }
+            {
+                // Clone::clone_from into an iterator over ANOTHER container with as many items left
+                let mut other = Map::<Key, Val, N>::new();
+                for j in 0..viaclone.len().min(N) {
+                    let (k, v) = (Key::new(900 + j as Cls, 0), Val::new(0));
+                    ctx.stash_serials.push(k.serial);
+                    ctx.stash_serials.push(v.serial);
+                    other.insert(k, v);
+                }
+                let other = Box::new(other);
+                let via_cf: Vec<Value> = {
+                    let src = cage.m.$meth();
+                    let mut src = src;
+                    for _ in 0..(cage.m.len() - viaclone.len()) {
+                        let _ = src.next();
+                    }
+                    let mut o = other.$meth();
+                    let _ = call(ctx, || o.clone_from(&src));
+                    let mut v = vec![];
+                    while let Some(Some(x)) = call(ctx, || o.next()) {
+                        v.push(x.json(ctx));
+                    }
+                    v
+                };
+                if via_cf != viaclone {
+                    ctx.note("C09", format!("clone_from into an iterator over another container continues differently: {via_cf:?} vs {viaclone:?}"));
+                }
+                ctx.stash.push(other);
+            }
             if s(op, "fin") == "none" && !$ret["rem"].is_null() && $ret["rem"].as_array().unwrap() != &orig {
                 ctx.note("C19", format!("iterator Debug lists {:?} but it then yields {orig:?}", $ret["rem"]));
             }
         }}};
-        (@clone $ito:ident, $ret:ident, false) => {{ if let Some($ito) = $ito {
+        (@noclone $ito:ident, $ret:ident) => {{ if let Some($ito) = $ito {
             let left = $ito.len();
             let cnt = call(ctx, || $ito.count());
             if cnt != Some(left) {
                 ctx.note("C09", format!("count() = {cnt:?} but len() = {left}"));
             }
         }}};
-        ($mk:expr, $clonable:tt) => {{
+        ($mk:expr, $meth:ident) => {{
             // a complete first traversal: a second traversal must agree with it (C09)
             let first: Vec<Value> = {
                 let mut it0 = $mk;
@@ -819,24 +878,24 @@ fn exec_cursor<const N: usize>(cage: &mut Cage<Map<Key, Val, N>>, op: &Value, ct
             if y.len() > first.len() || y[..] != first[..y.len()] {
                 ctx.note("C09", format!("two traversals of the unmodified container disagree: {first:?} vs {y:?}"));
             }
-            borrowing!(@clone it, ret, $clonable);
+            borrowing!(@clone it, ret, $meth);
             ret
         }};
     }
     match kind {
-        "iter" => borrowing!(cage.m.iter(), true),
-        "keys" => borrowing!(cage.m.keys(), true),
-        "values" => borrowing!(cage.m.values(), true),
+        "iter" => borrowing!(cage.m.iter(), iter),
+        "keys" => borrowing!(cage.m.keys(), keys),
+        "values" => borrowing!(cage.m.values(), values),
         "iter_mut" => {
             let it = cage.m.iter_mut();
             let (ret, it) = episode(ctx, it, op, n, w, "C09", true);
-            borrowing!(@clone it, ret, false);
+            borrowing!(@noclone it, ret);
             ret
         }
         "values_mut" => {
             let it = cage.m.values_mut();
             let (ret, it) = episode(ctx, it, op, n, w, "C09", true);
-            borrowing!(@clone it, ret, false);
+            borrowing!(@noclone it, ret);
             ret
         }
         "into_iter" => {
@@ -1216,14 +1275,24 @@ pub fn exec_set<const N: usize>(cage: &mut Cage<Set<Key, N>>, op: &Value, ctx: &
         "s_retain" => {
             let keep: Vec<Cls> = op["keep"].as_array().unwrap().iter().map(|x| x.as_u64().unwrap() as Cls).collect();
             let m = &mut cage.m;
-            match call(ctx, || {
+            let span = ctx.span;
+            let outside = Cell::new(0usize);
+            let r = call(ctx, || {
                 m.retain(|k| {
                     let _s = ledger::Suspend::new();
                     k.check("retain predicate key");
+                    let ka = k as *const Key as usize;
+                    if ka < span.0 || ka + std::mem::size_of::<Key>() > span.1 {
+                        outside.set(outside.get() + 1);
+                    }
                     ledger::maybe_panic('p', k.serial, 0);
                     keep.contains(&k.class())
                 })
-            }) {
+            });
+            if outside.get() > 0 {
+                ctx.note("C06", format!("retain handed its predicate {} reference(s) that point outside the container value", outside.get()));
+            }
+            match r {
                 None => json!(["panic"]),
                 Some(()) => json!(["unit"]),
             }
@@ -1300,14 +1369,14 @@ pub fn exec_set<const N: usize>(cage: &mut Cage<Set<Key, N>>, op: &Value, ctx: &
             let m = &mut cage.m;
             match name {
                 "s_extend" => {
-                    let src = Source { items: items.into_iter(), pulled: &pulled, done: Cell::new(0) };
+                    let src = Source { items: items.into_iter(), pulled: &pulled, done: Cell::new(0), hint: hint_of(op) };
                     match call(ctx, || m.extend(src)) {
                         None => json!({"r": "panic", "pulled": pulled.get()}),
                         Some(()) => json!({"r": "ok", "pulled": pulled.get()}),
                     }
                 }
                 "s_from_iter" => {
-                    let src = Source { items: items.into_iter(), pulled: &pulled, done: Cell::new(0) };
+                    let src = Source { items: items.into_iter(), pulled: &pulled, done: Cell::new(0), hint: hint_of(op) };
                     match call(ctx, || src.collect::<Set<Key, N>>()) {
                         None => json!({"r": "panic", "pulled": pulled.get()}),
                         Some(st) => {
